@@ -12,7 +12,8 @@ Executable model of
   reading only `WAVELENGTH` is used (`nu` is re-derived from it), and the spectral axis (axis 2) of
   `val` and `unc` is reversed together with `wav` under the same condition.
 * `SEDCube.get_sed`: first index whose name matches; `ValueError` if there is none.
-* `ConvolvedFluxes.write` / `.read`: no spectral axis; names go through `astype('S30')`.
+* `ConvolvedFluxes.write` / `.read`: no spectral axis; names go through `astype('S30')`; `FILTWAV` and the
+  `APERTURES` HDU are optional; a 1-D flux column is reshaped to `(n, 1)` when there is one aperture.
 
 Arrays are lists (structure of arrays, as in the code); optional parts are `Option`; a Python
 exception is `none`.  Values are stored in their own unit (unit conversion is C15's business), so
@@ -195,12 +196,52 @@ structure Conv (K : Type) where
 /-- `astype('S30')` -/
 def s30 (n : String) : String := String.ofList (n.toList.take 30)
 
-/-- `ConvolvedFluxes.write`: `FILTWAV` only when set, `APERTURES` only when set -/
-def convWrite (c : Conv K) : Conv K :=
-  { wavelength := c.wavelength, names := c.names.map s30, aps := c.aps, flux := c.flux, err := c.err }
+/-- a `TOTAL_FLUX` / `TOTAL_FLUX_ERR` column as found in a file: one number per model (`ndim == 1`, files
+    written by other tools or older versions) or one vector per model (`ndim == 2`; what
+    `ConvolvedFluxes.write` produces, also for a single aperture) -/
+inductive Col (K : Type)
+  | d1 (v : List K)
+  | d2 (rows : List (List K))
+  deriving DecidableEq, Repr
 
-/-- `ConvolvedFluxes.read` -/
-def convRead (f : Conv K) : Conv K := f
+/-- the HDUs of a convolved-flux file: `FILTWAV` keyword and `APERTURES` HDU are optional -/
+structure ConvFile (K : Type) where
+  filtwav : Option K
+  names : List String
+  aps : Option (List K)
+  flux : Col K
+  err : Col K
+  deriving DecidableEq, Repr
+
+/-- `ConvolvedFluxes.write`: `FILTWAV` only when `central_wavelength` is set, `APERTURES` only when
+    apertures are set; names through `astype('S30')`; flux / error as vector columns -/
+def convWrite (c : Conv K) : ConvFile K :=
+  { filtwav := c.wavelength, names := c.names.map s30, aps := c.aps, flux := .d2 c.flux, err := .d2 c.err }
+
+/-- one column as `ConvolvedFluxes.read` takes it in: a 1-D column is reshaped to `(n, 1)` when
+    `n_ap == 1`; the setter then insists on shape `(n_models, n_ap)` (`ValueError` otherwise) -/
+def colRead (nModels nAp : Nat) : Col K → Option (List (List K))
+  | .d1 v => if nAp = 1 ∧ v.length = nModels then some (v.map (fun x => [x])) else none
+  | .d2 rows => if rows.length = nModels ∧ rows.all (fun r => r.length == nAp) = true then some rows else none
+
+/-- `n_ap` as `read` sees it: the length of the `APERTURES` table, 1 without one -/
+def fileNAp (f : ConvFile K) : Nat :=
+  match f.aps with
+  | none => 1
+  | some a => a.length
+
+/-- `ConvolvedFluxes.read`: no `FILTWAV` → `central_wavelength = None`; no `APERTURES` HDU →
+    `apertures = None` (and `n_ap = 1`) -/
+def convRead (f : ConvFile K) : Option (Conv K) :=
+  match colRead f.names.length (fileNAp f) f.flux, colRead f.names.length (fileNAp f) f.err with
+  | some fl, some er => some { wavelength := f.filtwav, names := f.names, aps := f.aps, flux := fl, err := er }
+  | _, _ => none
+
+/-- `n_ap` of an object -/
+def convNAp (c : Conv K) : Nat :=
+  match c.aps with
+  | none => 1
+  | some a => a.length
 
 /-- flux of model `m`, aperture `a` -/
 def convFlux (c : Conv K) (m a : Nat) : Option K := (c.flux[m]?).bind (fun r => r[a]?)
